@@ -7,5 +7,8 @@ WT=$(mktemp -d /tmp/trywt-XXXXXX); rmdir "$WT"
 git -C /repo worktree add --detach "$WT" HEAD >/dev/null 2>&1 || { echo "worktree failed"; exit 2; }
 trap 'git -C /repo worktree remove --force "$WT" >/dev/null 2>&1; rm -rf "$WT"' EXIT INT TERM PIPE HUP
 git -C "$WT" apply "$P" || { echo "patch does not apply"; exit 2; }
-cd /verif && VERIF_REPO="$WT" ./bin/check "$ID" "$@"
+# evidence and replays of this run go to a scratch directory: /verif/evidence only ever holds
+# what a run against /repo itself wrote
+OUT=/tmp/trypatch-out; mkdir -p "$OUT"
+cd /verif && VERIF_REPO="$WT" VERIF_OUT="$OUT" ./bin/check "$ID" "$@"
 echo "check exit=$?"
